@@ -161,14 +161,7 @@ func runC01(c *ShardCtx) {
 	// i-flagged one-rune class, each against every member of its case orbit (lower, upper, title,
 	// simple folds) and a neighbour; 8 runes = 24 rules per grammar, selected with Entrypoint
 	{
-		var cased []rune
-		for _, blk := range [][2]rune{{0x41, 0x2FFF}, {0xA640, 0xA7FF}, {0xAB70, 0xABBF}, {0xFF21, 0xFF5A}, {0x10400, 0x1044F}, {0x1E900, 0x1E943}} {
-			for r := blk[0]; r <= blk[1]; r++ {
-				if unicode.ToLower(r) != r || unicode.ToUpper(r) != r || unicode.ToTitle(r) != r || unicode.SimpleFold(r) != r {
-					cased = append(cased, r)
-				}
-			}
-		}
+		cased := casedRunes()
 		for at := 0; at < len(cased); at += 8 {
 			idx++
 			if !c.Mine(idx) {
@@ -254,4 +247,17 @@ func wrapFirst(g *peg.Grammar) *peg.Grammar {
 	h := g.Clone()
 	h.Rules[0].Expr = peg.Action(100, peg.Label("v", h.Rules[0].Expr), "v")
 	return h
+}
+
+// casedRunes: every rune with a case variant below U+3000 and in the later cased blocks.
+func casedRunes() []rune {
+	var cased []rune
+	for _, blk := range [][2]rune{{0x41, 0x2FFF}, {0xA640, 0xA7FF}, {0xAB70, 0xABBF}, {0xFF21, 0xFF5A}, {0x10400, 0x1044F}, {0x1E900, 0x1E943}} {
+		for r := blk[0]; r <= blk[1]; r++ {
+			if unicode.ToLower(r) != r || unicode.ToUpper(r) != r || unicode.ToTitle(r) != r || unicode.SimpleFold(r) != r {
+				cased = append(cased, r)
+			}
+		}
+	}
+	return cased
 }
